@@ -35,8 +35,8 @@ const (
 	vStoreType = 1
 )
 
-func newTokenWorld() *vWorld {
-	w := newWorld(vWorldOpts{CertCfg: []string{"password"}, WebUICfg: []string{"password"}, CLITokens: true})
+func newTokenWorld(p521 ...bool) *vWorld {
+	w := newWorld(vWorldOpts{CertCfg: []string{"password"}, WebUICfg: []string{"password"}, CLITokens: true, P521CA: len(p521) > 0 && p521[0]})
 	w.st.Config.OpenIDConnectIDP.Client = []OpenIDConnectClientConfig{
 		{ClientID: vClientA, ClientSecret: vSecretA, AllowedRedirectDomains: []string{"example.org"}, AllowClientChosenAudiences: true},
 		{ClientID: vClientB, ClientSecret: "", AllowedRedirectDomains: []string{"example.org"}, AllowClientChosenAudiences: true},
@@ -470,7 +470,12 @@ func runC04(t *testing.T, cases []map[string]interface{}, ev *vEvents) {
 }
 
 func runC12(t *testing.T, cases []map[string]interface{}, ev *vEvents) {
-	w := newTokenWorld()
+	runC12In(newTokenWorld(), cases, ev, 0)
+	// the same again in a deployment whose CA key is an ECDSA P-521 key (tokens signed ES512): whatever key signs is published
+	runC12In(newTokenWorld(true), cases, ev, len(cases))
+}
+
+func runC12In(w *vWorld, cases []map[string]interface{}, ev *vEvents, base int) {
 	defer w.Close()
 	// published keys
 	jr := w.Do(vReq{Method: "GET", Path: idpOpenIDCJWKSPath})
@@ -479,6 +484,11 @@ func runC12(t *testing.T, cases []map[string]interface{}, ev *vEvents) {
 	clientID := map[string]string{"A": vClientA, "B": vClientB, "unknown": "clientZ"}
 	for i, c := range cases {
 		chal := vStr(c, "chal")
+		if base > 0 && chal != "none" {
+			// (the PKCE rows stay with the first deployment: protecting the challenge inside the code needs a key that can
+			// encrypt, which is another matter than which key signs)
+			continue
+		}
 		authTime := time.Now().Unix()
 		aud := ""
 		if vStr(c, "audparam") == "allowed" {
@@ -620,7 +630,7 @@ func runC12(t *testing.T, cases []map[string]interface{}, ev *vEvents) {
 				}
 			}
 		}
-		ev.Emit(map[string]interface{}{"i": i, "ev": "Redeem", "case": c,
+		ev.Emit(map[string]interface{}{"i": base + i, "ev": "Redeem", "case": c,
 			"out": map[string]interface{}{"released": released, "panic": r.Panic != "", "status": r.Status, "tk": tk, "leak": leak}})
 	}
 }
